@@ -292,8 +292,11 @@ def gen_identifiers():
               "x.null", "falsehood", "ink", "orb", "andy", "notary", "all_", "any1", "T", "Z", "P", "e1", "E5", "t10", "d1", "a1b2",
               "durationx", "geographyx", "ge0", "le_", "_1", "__", "a.b.c.d", "A.B"}
     names |= {"a" * 127, "a" * 128, "b" + "1" * 127, "n." + "c" * 126, "_" * 128}
-    names -= set(KEYWORDS)            # exact keywords are not identifiers in every context
-    names -= {k.upper() for k in KEYWORDS} | {k.capitalize() for k in KEYWORDS}
+    # null/true/false/not are keywords wherever they stand; every other keyword only in its own syntactic position (an infix operator
+    # between operands, any/all before "(", a literal prefix before a quote), so as a name it is a plain field reference
+    reserved = {"null", "true", "false", "not"}
+    names -= reserved | {k.upper() for k in reserved} | {k.capitalize() for k in reserved}
+    names |= {k2 for k in KEYWORDS if k not in reserved for k2 in (k, k.upper(), k.capitalize())}
     out = []
     for s in sorted(names):
         if not wellformed(s):
